@@ -181,6 +181,9 @@ func Decide(kind uint8, site int32, n int, proposed int) int {
 //
 //go:norace
 func Event(a, b, c uint64) {
+	if DebugEvent != nil {
+		DebugEvent(a, b, c)
+	}
 	h := evHash
 	h = (h ^ a) * 1099511628211
 	h = (h ^ b) * 1099511628211
@@ -197,6 +200,9 @@ func Seq() int64 {
 	evSeq++
 	return evSeq
 }
+
+// DebugEvent, if set, sees every event (debugging aid for the determinism self-test).
+var DebugEvent func(a, b, c uint64)
 
 // EventHash returns the hash and count of all events of the run.
 //
